@@ -17,7 +17,7 @@ fn budget(t: Tier) -> u64 {
     let once = (VARIANTS + PER_RUN - 1) / PER_RUN;
     match t {
         Tier::Quick => once,
-        Tier::Thorough => once * 20,
+        Tier::Thorough => once * 200,
     }
 }
 
@@ -169,7 +169,7 @@ pub fn property() -> Property {
         gen,
         check,
         finalize: no_finalize,
-        rule: "the request matrix (every VER list of length 0..=6 over {draft-13, classic 0, three unknown numbers} = 19531 lists x SRV absent/correct/other server, plus SRV under all 256 single-bit corruptions, 5 wrong lengths, another server's value, and VER absent: 58856 variants) is enumerated completely once per quick run in slices of 60 per simulated execution, each variant embedded among seeded unrelated traffic and batches on 1-2 real workers; thorough repeats the matrix in 20 traffic contexts; non-trivial = workers received datagrams; distinct = distinct schedule fingerprints (the matrix itself is exhaustive, the traffic contexts are sampled)",
+        rule: "the request matrix (every VER list of length 0..=6 over {draft-13, classic 0, three unknown numbers} = 19531 lists x SRV absent/correct/other server, plus SRV under all 256 single-bit corruptions, 5 wrong lengths, another server's value, and VER absent: 58856 variants) is enumerated completely once per quick run in slices of 60 per simulated execution, each variant embedded among seeded unrelated traffic and batches on 1-2 real workers; thorough repeats the matrix in 200 traffic contexts; non-trivial = workers received datagrams; distinct = distinct schedule fingerprints (the matrix itself is exhaustive, the traffic contexts are sampled)",
         assumptions: &["a request naming draft-13 only beyond the fourth VER entry may or may not be answered (the statement allows either)", "absence of a reply is decided at the end of the run, 400 simulated ms after the last arrival with all worker queues empty"],
         real: REAL_W,
         stub: STUB,
